@@ -8,13 +8,17 @@
    codes = the steps: 0 b (fill, 9n floats) | 1 b (rotate, 9 floats) | 2 b p_1..p_n (permute) |
    3 b (row factors, 3n floats) | 4 b src (copy) | 5 b r (P,G,R) | 6 b r (Bingham) |
    7 b r1 r2 (coaxial); output = the matrices handed to LAPACK, in call order.
+   run_fse_session: a finite_strain call history on `nb` live 3x3 objects (Model_diag_fse_session); floats = the
+   initial contents, then the payloads in order; codes: 0 b (F[...] = G, 9 floats) | 1 b (F[...] = F @ Q, 9) |
+   2 b (F[...] = Q @ F, 9) | 3 b (F *= c, 1) | 4 b (F[...] = F.T) | 5 b src (copy) | 6 b (finite_strain);
+   output = the matrices handed to LAPACK, in call order.
    run_smallest_angle: 6 floats (vector, axis) or 9 (vector, axis, plane normal).
    run_gen_*: the definitions of gen/Gen_diag.v (REGENERATED from the source, n = 1, 2, 3 grains) run on
    the same inputs; their LAPACK parameter is the constant function returning the recorded output
    (eigenvalues; V row-major as SciPy returns it), for coaxial_index keyed on the generated scatter
    matrix of the first axis. *)
 From Coq Require Import ZArith List Bool.
-From PV Require Import Num Model_diag Model_diag_session.
+From PV Require Import Num Model_diag Model_diag_session Model_diag_fse_session.
 From PV.gen Require Import Gen_diag.
 Import ListNotations.
 
@@ -143,6 +147,39 @@ Section Entry.
     | [s] => Ok [angle_fse_simpleshear s]
     | _ => Err OtherError
     end.
+  Fixpoint fstore_of (nb : nat) (l : list F) : @fstore F :=
+    match nb with
+    | O => []
+    | S k => m3_of l :: fstore_of k (skipn 9 l)
+    end.
+
+  Fixpoint parse_fops (fuel : nat) (codes : list nat) (xs : list F) : res (list (@fop F)) :=
+    match codes with
+    | [] => Ok []
+    | k :: t =>
+      match fuel with
+      | O => Err OtherError
+      | S fuel' =>
+        let next o t' xs' := bind (parse_fops fuel' t' xs') (fun l => Ok (o :: l)) in
+        match k, t with
+        | 0%nat, b :: t' => next (FSet b (m3_of xs)) t' (skipn 9 xs)
+        | 1%nat, b :: t' => next (FRight b (m3_of xs)) t' (skipn 9 xs)
+        | 2%nat, b :: t' => next (FLeft b (m3_of xs)) t' (skipn 9 xs)
+        | 3%nat, b :: t' => next (FScale b (nth 0 xs d0)) t' (skipn 1 xs)
+        | 4%nat, b :: t' => next (FTransp b) t' xs
+        | 5%nat, b :: src :: t' => next (FCopy b src) t' xs
+        | 6%nat, b :: t' => next (FStrain b) t' xs
+        | _, _ => Err OtherError
+        end
+      end
+    end.
+
+  Definition run_fse_session (memo : bool) (nb : nat) (codes : list nat) (xs : list F) : res (list F) :=
+    match parse_fops (length codes) codes (skipn (9 * nb) xs) with
+    | Err e => Err e
+    | Ok h => Ok (flat_map l_of_s6 (lcgs_of (frun no_vecs memo (fstore_of nb xs, []) h)))
+    end.
+
   Definition run_smallest_angle (xs : list F) : res (list F) :=
     match length xs with
     | 6%nat => bind (smallest_angle (v3_of xs) (v3_of (skipn 3 xs)) None) (fun x => Ok [x])
